@@ -774,8 +774,11 @@ def metaclass_programs(quick):
 def run_metaclass_program(prog):
     """Define the classes in order, then ask the real machinery about every (class, name): a name is accepted by
     connect_signal iff the class or one of the classes it inherits from (its MRO) declared it; an accepted handler is
-    called exactly once per emit; a rejected name raises NameError, connects nothing.  -> (why | None, skipped)"""
+    called exactly once per emit; a rejected name raises NameError, connects nothing.
+    -> ({kind: why} with the first finding of each kind, skipped); kinds: "foreign-name-accepted", "inherited-name-rejected",
+    "delivery" (an accepted handler not called exactly once / a rejected one called)"""
     classes, own_of = [], {}
+    found = {}
     made = []
     try:
         for i, (kind, bases, own) in enumerate(prog):
@@ -787,7 +790,7 @@ def run_metaclass_program(prog):
                 else:
                     c = usig.MetaSignals(f"C{i}", bs, ns)
             except TypeError:
-                return None, True  # no consistent MRO: Python itself refuses the class statement
+                return {}, True  # no consistent MRO: Python itself refuses the class statement
             classes.append(c)
             made.append(c)
             own_of[c] = set(own or ())
@@ -814,15 +817,16 @@ def run_metaclass_program(prog):
                 r = urwid.emit_signal(obj, nm, 5)
                 if accepted != (nm in want):
                     if accepted:
-                        return (f"class C{i} accepted connect_signal(.., {nm!r}) although neither it nor any class it inherits from declares that name "
-                                f"(declared along its MRO: {sorted(want)})"), False
-                    return (f"class C{i} rejected connect_signal(.., {nm!r}) with NameError although a class it inherits from declares that name "
-                            f"(declared along its MRO: {sorted(want)})"), False
+                        found.setdefault("foreign-name-accepted", f"class C{i} accepted connect_signal(.., {nm!r}) although neither it nor any class it inherits from "
+                                                                  f"declares that name (declared along its MRO: {sorted(want)})")
+                    else:
+                        found.setdefault("inherited-name-rejected", f"class C{i} rejected connect_signal(.., {nm!r}) with NameError although a class it inherits from "
+                                                                    f"declares that name (declared along its MRO: {sorted(want)})")
                 if accepted and (calls != [("u", 5)] or r is not True):
-                    return f"class C{i} signal {nm!r}: one emit made the calls {calls} and returned {r!r}; expected exactly one call ('u', 5) and True", False
+                    found.setdefault("delivery", f"class C{i} signal {nm!r}: one emit made the calls {calls} and returned {r!r}; expected exactly one call ('u', 5) and True")
                 if not accepted and (calls or r is not False):
-                    return f"class C{i} rejected {nm!r} but the emit made the calls {calls} / returned {r!r}", False
-        return None, False
+                    found.setdefault("delivery", f"class C{i} rejected {nm!r} but the emit made the calls {calls} / returned {r!r}")
+        return found, False
     finally:
         for c in made:
             usig._signals._supported.pop(c, None)  # only to restore the global registry
@@ -1182,21 +1186,30 @@ def run(tier="quick", seed=0):
                 c7.case(tuple(c.values()), why is None, {"why": why, "case": c}, True, c)
             out.append(c7.result())
             # 9. registration through the metaclass
-            c8 = Check("C14/metaclass-registration", "class-definition histories (MetaSignals roots, plain mixins, single and multiple inheritance in every base order, with and without an own `signals` declaration, a name declared by several classes), then for EVERY class defined and every name: connect_signal accepts the name iff the class or a class along its MRO declared it, an accepted handler is called exactly once per emit, a rejected name raises NameError and connects nothing", True,
-                       "<= 4 class statements, <= " + ("2" if quick else "3") + " bases each (every ordered choice of earlier classes), own declaration in " + ("{none, [n_i], [n_i, s]}" if quick else "{none, [], [n_i], [n_i, s], [s]}") + "; every (class, name) pair probed after the last statement")
+            rule8 = ("class-definition histories (MetaSignals roots, plain mixins, single and multiple inheritance in every base order, with and without an own "
+                     "`signals` declaration, a name declared by several classes), then for EVERY class defined and every name: ")
+            bound8 = ("<= 4 class statements, <= " + ("2" if quick else "3") + " bases each (every ordered choice of earlier classes), own declaration in "
+                      + ("{none, [n_i], [n_i, s]}" if quick else "{none, [], [n_i], [n_i, s], [s]}") + "; every (class, name) pair probed after the last statement")
+            c8 = Check("C14/metaclass-registration", rule8 + "connect_signal REJECTS (NameError, nothing connected, emit calls nothing) every name that neither the class nor a class along its MRO declared; a handler connected to an accepted name is called exactly once per emit", True, bound8)
+            c8b = Check("C14/metaclass-inherited-names", rule8 + "connect_signal ACCEPTS every name declared by the class or by a class along its MRO", True, bound8)
             skipped = 0
             for prog in metaclass_programs(quick):
                 try:
-                    why, skip = run_metaclass_program(prog)
+                    found, skip = run_metaclass_program(prog)
                 except Exception as e:  # noqa: BLE001
-                    why, skip = f"raised {type(e).__name__}: {e}", False
+                    found, skip = {"delivery": f"raised {type(e).__name__}: {e}"}, False
                 if skip:
                     skipped += 1
                     continue
-                c8.case(prog, why is None, {"why": why, "program": [list(map(_jsonable, st)) for st in prog]}, True, {"program": [list(map(_jsonable, st)) for st in prog]})
-            r8 = c8.result()
-            r8["skipped_inconsistent_mro"] = skipped
-            out.append(r8)
+                jp = [list(map(_jsonable, st)) for st in prog]
+                why = found.get("foreign-name-accepted") or found.get("delivery")
+                c8.case(prog, why is None, {"why": why, "program": jp}, True, {"program": jp})
+                why = found.get("inherited-name-rejected")
+                c8b.case(prog, why is None, {"why": why, "program": jp}, True, {"program": jp})
+            for c in (c8, c8b):
+                r8 = c.result()
+                r8["skipped_inconsistent_mro"] = skipped
+                out.append(r8)
 
             # 10. connections made and dropped by the library itself
             al9 = setter_alphabet()
@@ -1247,10 +1260,14 @@ def replay(check_name, case):
             if "program" in case:
                 prog = tuple((k, tuple(b), None if o is None else tuple(o)) for k, b, o in case["program"])
                 try:
-                    why, _skip = run_metaclass_program(prog)
+                    found, _skip = run_metaclass_program(prog)
                 except Exception as e:  # noqa: BLE001
-                    why = f"raised {type(e).__name__}: {e}"
-                return {"outcome": "confirmed" if why else "not-reproduced", "detail": {"why": why}}
+                    found = {"delivery": f"raised {type(e).__name__}: {e}"}
+                if check_name.endswith("metaclass-inherited-names"):
+                    why = found.get("inherited-name-rejected")
+                else:
+                    why = found.get("foreign-name-accepted") or found.get("delivery")
+                return {"outcome": "confirmed" if why else "not-reproduced", "detail": {"why": why, "all": found}}
             if "setter_history" in case or "mainloop_history" in case:
                 try:
                     why = run_setter_history(case["setter_history"]) if "setter_history" in case else run_mainloop_history(case["mainloop_history"])
